@@ -776,12 +776,26 @@ func (d *dirWorld) apply(t []string) (string, string) {
 		s := fmt.Sprintf("H:%d", len(d.w.handles)-1)
 		return s, s
 	}
+	same := func(s string) (string, string) { return s, s }
+	switch t[0] {
+	case "DMK": // create an entry of the directory through the path API
+		p := d.base + "/" + untok(t[1])
+		if d.w.vfs != nil {
+			return same(fioErr(d.w.vfs.WriteFile(p, nil, 0o644)))
+		}
+		return same(fioErr(os.WriteFile(p, nil, 0o644)))
+	case "DRM": // remove an entry through the path API
+		p := d.base + "/" + untok(t[1])
+		if d.w.vfs != nil {
+			return same(fioErr(d.w.vfs.Remove(p)))
+		}
+		return same(fioErr(os.Remove(p)))
+	}
 	h := atoi(t[1])
 	if h < 0 || h >= len(d.w.handles) {
 		return "BADINDEX", "BADINDEX"
 	}
 	f := d.w.handles[h]
-	same := func(s string) (string, string) { return s, s }
 	switch t[0] {
 	case "DRD", "DRN":
 		n := atoi(t[2])
@@ -831,9 +845,38 @@ func runDirHistory(names []string, ops []string) []string {
 	for _, w := range ws {
 		w.setup(names)
 	}
+	// A handle that has read and has not been rewound when the directory changes is "dirty": what os.File shows of
+	// the change is unspecified until its next Seek(0,0); its reads are rendered "?" in the os.File column (the
+	// specification driver does the same), the implementations are still compared with their model.
+	var started, dirty, closed []bool
 	var outs []string
 	for _, op := range ops {
 		tk := strings.Fields(op)
+		unspecified := false
+		switch tk[0] {
+		case "DOP":
+			started, dirty, closed = append(started, false), append(dirty, false), append(closed, false)
+		case "DMK", "DRM":
+			for h := range started {
+				if started[h] {
+					dirty[h] = true
+				}
+			}
+		default:
+			if h := atoi(tk[1]); h >= 0 && h < len(started) {
+				isread := tk[0] == "DRD" || tk[0] == "DRN"
+				if tk[0] == "DSK" && !closed[h] {
+					started[h], dirty[h] = false, false
+				}
+				unspecified = isread && dirty[h]
+				if isread && !closed[h] {
+					started[h] = true
+				}
+				if tk[0] == "DCL" {
+					closed[h] = true
+				}
+			}
+		}
 		var ex, cn [3]string
 		for i, w := range ws {
 			w := w
@@ -845,6 +888,9 @@ func runDirHistory(names []string, ops []string) []string {
 				}()
 				ex[i], cn[i] = w.apply(tk)
 			}()
+		}
+		if unspecified {
+			cn[2] = "?"
 		}
 		outs = append(outs, fmt.Sprintf("m:%s o:%s s:%s cm:%s co:%s", ex[0], ex[1], cn[2], cn[0], cn[1]))
 	}
@@ -890,11 +936,33 @@ func (e *fioExplorer) emitDirs(names []string, histories [][]string) {
 }
 
 // every history of `depth` calls on nh directory handles
+// the directory changes through the path API: a new entry, and the removal of an entry ("x" is in every non-empty listing)
+var dirChanges = []string{"DMK " + tok("w"), "DRM " + tok("x")}
+
+// exploreDirChange: every history "read ; change ; [rewind] ; read" on one handle - the listing a handle reads is the
+// directory's content at its first read after open or rewind
+func (e *fioExplorer) exploreDirChange(names []string) {
+	var reads []string
+	for _, n := range uniqInts([]int{-1, 0, 1, 2, len(names), len(names) + 1}) {
+		reads = append(reads, fmt.Sprintf("DRD 0 %d", n), fmt.Sprintf("DRN 0 %d", n))
+	}
+	var all [][]string
+	for _, r1 := range reads {
+		for _, c := range dirChanges {
+			for _, r2 := range reads {
+				all = append(all, []string{"DOP", r1, c, "DSK 0", r2, r2}, []string{"DOP", r1, c, r2, "DSK 0", r2})
+			}
+		}
+	}
+	e.emitDirs(names, all)
+}
+
 func (e *fioExplorer) exploreDir(names []string, nh, depth int) {
 	var alpha []string
 	for h := 0; h < nh; h++ {
 		alpha = append(alpha, dirAlphabet(h, len(names))...)
 	}
+	alpha = append(alpha, dirChanges...)
 	base := []string{}
 	for h := 0; h < nh; h++ {
 		base = append(base, "DOP")
@@ -921,6 +989,17 @@ func randomDirOps(r *rng, names []string, steps int) []string {
 		if nh < 3 && r.chance(1, 12) {
 			ops = append(ops, "DOP")
 			nh++
+			continue
+		}
+		if r.chance(1, 8) {
+			// the directory changes; every handle is then rewound with probability 1/2, so that the comparison with
+			// os.File goes on (a handle that is not rewound is compared with the model only)
+			ops = append(ops, r.pick([]string{"DMK", "DRM"})+" "+tok(r.pick([]string{"w", "x", "y"})))
+			for h := 0; h < nh; h++ {
+				if r.chance(1, 2) {
+					ops = append(ops, "DSK "+strconv.Itoa(h))
+				}
+			}
 			continue
 		}
 		al := dirAlphabet(r.intn(nh), len(names))
@@ -1031,6 +1110,7 @@ func runFileIO(cfg config) {
 			e.exploreDir(names, 1, 3)
 			e.exploreDir(names, 2, 2)
 		}
+		e.exploreDirChange(names)
 		nrd := 30
 		if thorough {
 			nrd = 300
@@ -1042,7 +1122,7 @@ func runFileIO(cfg config) {
 		e.emitDirs(names, rd)
 	}
 	o.extra["dir_histories"] = e.emitted - nfile
-	o.rule = "handle-operation histories on MemFS, OrefaFS and *os.File (fresh tmpfs directory): (1) every open-flag combination {O_RDONLY,O_WRONLY,O_RDWR} x subsets of {O_APPEND,O_TRUNC,O_CREATE,O_EXCL} with every (reachable state, call) pair to the stated depth, states identified by content/size/attributes through every name and descriptor plus offsets; (2) multi-handle configurations deeper; (3) random pairs of flag combinations, full alphabet; (4) random 300-step histories over <=3 open handles with re-opens and path-level Truncate/Rename/Link/Remove; offsets, lengths and sizes from {-1,0,1,S-1,S,S+1,S+7} around the current size S, whence from {0,1,2,-1,5}; (5) directory handles: every history of ReadDir/Readdirnames(n in {-1,0,1,2,k,k+1})/Seek(0,0)/Read/Close to the stated depth on directories of 0, 1 and 3 entries + random ones. After every step the content, size, link count and attributes seen through every name (Stat, ReadFile) and every descriptor (Stat, ReadAt) are compared as well."
+	o.rule = "handle-operation histories on MemFS, OrefaFS and *os.File (fresh tmpfs directory): (1) every open-flag combination {O_RDONLY,O_WRONLY,O_RDWR} x subsets of {O_APPEND,O_TRUNC,O_CREATE,O_EXCL} with every (reachable state, call) pair to the stated depth, states identified by content/size/attributes through every name and descriptor plus offsets; (2) multi-handle configurations deeper; (3) random pairs of flag combinations, full alphabet; (4) random 300-step histories over <=3 open handles with re-opens and path-level Truncate/Rename/Link/Remove; offsets, lengths and sizes from {-1,0,1,S-1,S,S+1,S+7} around the current size S, whence from {0,1,2,-1,5}; (5) directory handles: every history of ReadDir/Readdirnames(n in {-1,0,1,2,k,k+1})/Seek(0,0)/Read/Close and of creating / removing an entry of the directory through the path API, to the stated depth, on directories of 0, 1 and 3 entries; every history read;change;[rewind];read;read; random ones (os.File is compared except on reads of a handle that has read and not been rewound since the directory changed: unspecified). After every step the content, size, link count and attributes seen through every name (Stat, ReadFile) and every descriptor (Stat, ReadAt) are compared as well."
 }
 
 // ---- the O projection (implementation versus os.File), used to shrink and replay deviations -------------
@@ -1057,6 +1137,9 @@ func fioFields(step string) map[string]string {
 }
 
 func fioProjDev(r, rs, v, vs string) string {
+	if rs == "?" { // unspecified for os.File: not compared
+		return "eq"
+	}
 	if r != rs {
 		return fmt.Sprintf("DEV:r:%s/%s", r, rs)
 	}
